@@ -15,10 +15,10 @@ for ID in "$@"; do
   ( cd $W && ./build/ninja_test ) > $O/verify.tests.log 2>&1; trc=$?
   passed=$(grep -c '^\[       OK \]' $O/verify.tests.log)
   if [ -f $O/demo.sh ]; then
-    sh $O/demo.sh $W/build/ninja >> $L 2>&1; d1=$?
-    sh $O/demo.sh $W/build/ninja >> $L 2>&1; d1b=$?
-    sh $O/demo.sh ${ORIG:-/tmp/rc/build/ninja} >> $L 2>&1; d0=$?
-    sh $O/demo.sh ${ORIG:-/tmp/rc/build/ninja} >> $L 2>&1; d0b=$?
+    bash $O/demo.sh $W/build/ninja >> $L 2>&1; d1=$?
+    bash $O/demo.sh $W/build/ninja >> $L 2>&1; d1b=$?
+    bash $O/demo.sh ${ORIG:-/tmp/rc/build/ninja} >> $L 2>&1; d0=$?
+    bash $O/demo.sh ${ORIG:-/tmp/rc/build/ninja} >> $L 2>&1; d0b=$?
   else d1=nodemo; d1b=nodemo; d0=nodemo; d0b=nodemo; fi
   echo "$ID files=$nontest testfiles_touched=$tests suite_rc=$trc passed=$passed demo_with_change=$d1,$d1b demo_without=$d0,$d0b"
 done
